@@ -85,9 +85,10 @@ def run(prop, tier, seed, scratch, replay=None):
                 raise vlib.Broken("ChainSync simulation failed: %s" % cs["errors"][:3])
             every = 1
         else:
-            cs = vlib.run_tlc(scratch, "ChainSync.tla", "MC_ChainSync_quick.cfg", out_traces=wtr, tag="cs", timeout=1800)
+            cs = vlib.run_tlc(scratch, "ChainSync.tla", "MC_ChainSync_quick.cfg", out_traces=wtr, tag="cs", timeout=1800,
+                              emit_every=20, emit_offset=seed)
             vlib.require_tlc_ok(cs, "ChainSync exploration (wallet-level pass)")
-            every = 20
+            every = 1
         vlib.run_driver(wdrv, ["-in", wtr, "-out", wrep, "-spec", "chainsync", "-prop", "C02", "-seed", seed,
                                "-every", every, "-offset", seed % every, "-workers", vlib.NCPU], timeout=3600)
         wl = vlib.load_report(wrep)
